@@ -182,6 +182,10 @@ M = [
       old="        let mut i = max(self.limbs.len(), rhs.limbs.len()) - 1;\n        loop {\n            // TODO: investigate if directly comparing limbs is faster than performing a\n            // subtraction between limbs\n            let a = self.limbs.get(i).unwrap_or(&Limb::ZERO);\n            let b = rhs.limbs.get(i).unwrap_or(&Limb::ZERO);\n            let (val, borrow) = a.sbb(*b, Limb::ZERO);",
       new="        debug_assert_eq!(self.limbs.len(), rhs.limbs.len());\n        let mut i = self.limbs.len() - 1;\n        loop {\n            let (val, borrow) = self.limbs[i].sbb(rhs.limbs[i], Limb::ZERO);",
       expect="c06.dbgwidth|uint::boxed::cmp::<impl uint::boxed::BoxedUint>::cmp_vartime"),
+ dict(name="wide_shl_cross_term_expect", prop="C11", file="src/uint/shl.rs",
+      old="                .overflowing_shr_vartime(Self::BITS - shift)\n                .unwrap_or(Self::ZERO);",
+      new="                .overflowing_shr_vartime(Self::BITS - shift)\n                .expect(\"shift within range\");",
+      expect="c11.panic|uint::shl::<impl uint::Uint<_>>::overflowing_shl_vartime_wide|panic:ConstCtOption:expect"),
  # --- C19
  dict(name="random_mod_core_polarity", prop="C19", file="src/uint/rand.rs",
       old="        if n.ct_lt(modulus).into() {\n            break;", new="        if !bool::from(n.ct_lt(modulus)) {\n            break;",
